@@ -14,6 +14,7 @@ import (
 	"github.com/ovh/kmip-go/kmipclient"
 	"github.com/ovh/kmip-go/kmipserver"
 	"github.com/ovh/kmip-go/payloads"
+	"github.com/ovh/kmip-go/ttlv"
 
 	"verif/harness/core"
 	"verif/harness/memnet"
@@ -169,6 +170,70 @@ func sharedStageLists(c *core.Ctx, r *core.Rand, i int) {
 		mu.Unlock()
 		if fmt.Sprint(got) != fmt.Sprint(e.want) {
 			c.Violation("C19:server-message:stages-of-another-executor", fmt.Sprintf("executor %d of %d, registered with %v, ran %v (the stage lists share a backing array with spare capacity)", k+1, N, e.want, got), nil)
+			return
+		}
+	}
+}
+
+// itemEdits (server item chain): a stage hands on an edited copy of the item (fills in a missing Unique Batch Item ID)
+// and annotates the response item it gets back (a message extension); the operation handler fails for some items.
+// What the chain returns is the item's answer: the edits are there whether the handler succeeded or failed.
+func itemEdits(c *core.Ctx, r *core.Rand, i int) {
+	ex := kmipserver.NewBatchExecutor()
+	ex.Route(kmip.OperationActivate, kmipserver.HandleFunc(func(ctx context.Context, req *payloads.ActivateRequestPayload) (*payloads.ActivateResponsePayload, error) {
+		if strings.HasSuffix(req.UniqueIdentifier, "-fail") {
+			return nil, kmipserver.ErrItemNotFound
+		}
+		return &payloads.ActivateResponsePayload{UniqueIdentifier: req.UniqueIdentifier}, nil
+	}))
+	nPass := r.Intn(3)
+	for k := 0; k < nPass; k++ {
+		ex.BatchItemUse(func(next kmipserver.BatchItemNext, ctx context.Context, bi *kmip.RequestBatchItem) (*kmip.ResponseBatchItem, error) {
+			return next(ctx, bi)
+		})
+	}
+	ex.BatchItemUse(func(next kmipserver.BatchItemNext, ctx context.Context, bi *kmip.RequestBatchItem) (*kmip.ResponseBatchItem, error) {
+		cp := *bi
+		if len(cp.UniqueBatchItemID) == 0 {
+			cp.UniqueBatchItemID = []byte("given-by-stage")
+		}
+		resp, err := next(ctx, &cp)
+		if resp != nil {
+			resp.MessageExtension = &kmip.MessageExtension{VendorIdentification: "stage", VendorExtension: ttlv.Struct{ttlv.Value{Tag: 0x540001, Value: int32(7)}}}
+		}
+		return resp, err
+	})
+	n := 1 + r.Intn(4)
+	m := &kmip.RequestMessage{Header: kmip.RequestHeader{ProtocolVersion: kmip.V1_4, BatchCount: int32(n)}}
+	var fails []bool
+	for k := 0; k < n; k++ {
+		id := fmt.Sprintf("ie%d-%d-ok", i, k)
+		f := r.P(1, 2)
+		if f {
+			id = fmt.Sprintf("ie%d-%d-fail", i, k)
+		}
+		fails = append(fails, f)
+		m.BatchItem = append(m.BatchItem, kmip.RequestBatchItem{Operation: kmip.OperationActivate, RequestPayload: &payloads.ActivateRequestPayload{UniqueIdentifier: id}})
+	}
+	var resp *kmip.ResponseMessage
+	if p, pv, st := core.Guard(func() { resp = ex.HandleRequest(context.Background(), m) }); p {
+		c.Violation(core.PanicSig(pv, st), fmt.Sprintf("HandleRequest panicked: %v", pv), map[string]any{"stack": st})
+		return
+	}
+	c.Count("item_edit_requests", 1)
+	c.Distinct(core.Hash64("item-edits", fmt.Sprint(nPass, fails)))
+	if resp == nil || len(resp.BatchItem) != n {
+		c.Violation("C19:item-chain:edits:response", "no response item per request item", nil)
+		return
+	}
+	for k, bi := range resp.BatchItem {
+		failed := bi.ResultStatus != kmip.ResultStatusSuccess
+		if failed != fails[k] {
+			c.Violation("C19:item-chain:edits:outcome", fmt.Sprintf("item %d failed=%v, expected %v", k+1, failed, fails[k]), nil)
+			return
+		}
+		if string(bi.UniqueBatchItemID) != "given-by-stage" || bi.MessageExtension == nil || bi.MessageExtension.VendorIdentification != "stage" {
+			c.Violation("C19:item-chain:edits:lost", fmt.Sprintf("item %d (handler failed=%v): the answer does not carry what the stage did (id %q, extension %v): it is not what the chain returned", k+1, fails[k], bi.UniqueBatchItemID, bi.MessageExtension != nil), nil)
 			return
 		}
 	}
